@@ -21,6 +21,11 @@ type Recipe struct {
 	Status     string   `json:"status"`
 	What       string   `json:"what"`
 	Extra      []string `json:"extra_overlay,omitempty"` // "repoRelPath=recipeRelPath"
+	Rewrite    []struct {
+		File string `json:"file"`
+		From string `json:"from"`
+		To   string `json:"to"`
+	} `json:"rewrite,omitempty"` // mechanical substitutions applied to a copy of a repository file (overlay only)
 	dir        string
 }
 
@@ -57,6 +62,18 @@ func runRecipe(root, repo string, r *Recipe) (bool, string) {
 		stub := filepath.Join(work, "gosensors_stub.go")
 		_ = os.WriteFile(stub, []byte(gosensorsStub()), 0644)
 		repl[gosensorsFile()] = stub
+	}
+	for i, rw := range r.Rewrite {
+		src, err := os.ReadFile(filepath.Join(repo, rw.File))
+		if err != nil {
+			return false, "REPLAY rewrite: " + err.Error()
+		}
+		if !strings.Contains(string(src), rw.From) {
+			return false, "REPLAY rewrite: pattern not found in " + rw.File + ": " + rw.From
+		}
+		dst := filepath.Join(work, fmt.Sprintf("rewrite%d_%s", i, filepath.Base(rw.File)))
+		_ = os.WriteFile(dst, []byte(strings.ReplaceAll(string(src), rw.From, rw.To)), 0644)
+		repl[filepath.Join(repo, rw.File)] = dst
 	}
 	ov, _ := json.Marshal(map[string]interface{}{"Replace": repl})
 	ovf := filepath.Join(work, "overlay.json")
